@@ -80,13 +80,13 @@ func memMapFieldSeen(v ssa.Value, seen map[ssa.Value]bool) string {
 		case *ssa.FieldAddr:
 			if f := an.FieldOf(x); f != nil {
 				if _, ok := f.Type().Underlying().(*types.Map); ok {
-					return f.Name()
+					return an.Ident(f.Name())
 				}
 			}
 		case *ssa.Field:
 			if f := an.FieldOf(x); f != nil {
 				if _, ok := f.Type().Underlying().(*types.Map); ok {
-					return f.Name()
+					return an.Ident(f.Name())
 				}
 			}
 		case *ssa.Phi:
@@ -453,12 +453,12 @@ func isTxnHelper(p *an.Prog, h *ssa.Function) bool {
 	if h.Pkg == nil || h.Pkg.Pkg.Path() != pkgBadger || len(h.Blocks) == 0 || !p.InRepo(h) || p.IsTestFunc(h) {
 		return false
 	}
-	switch h.Name() {
+	switch an.Ident(h.Name()) {
 	case "getItem", "setItem", "setExpiringItem", "loopItem", "hasKey", "getVersion", "setVersion", "checkVersion":
 		return false
 	}
 	if h.Signature.Recv() != nil {
-		if n := namedOf(h.Signature.Recv().Type()); n != nil && n.Obj().Name() == "badgerStore" {
+		if n := namedOf(h.Signature.Recv().Type()); n != nil && an.TName(n) == "badgerStore" {
 			return false
 		}
 	}
